@@ -187,6 +187,17 @@ TWGDone ==
           ELSE Flag("CompletionAfterLast") /\ Frozen /\ UNCHANGED <<pendEnd, pendDone>>
   /\ UNCHANGED <<curId, ref, reqs>>
 
+\* The completion message as the port accepted it (both CU models): the groups its RspTo list names.  A group named twice in
+\* one message is a group reported twice (the emulation CU collects finished groups in a list and sends the list when
+\* nothing is running; a send that fails is retried every cycle and must not change the list).  The WGDone events that
+\* follow (one per entry) update the state.
+TWGMsg ==
+  /\ Is("WGMsg")
+  /\ IF \E i, j \in 1..Len(Ev.ids) : i < j /\ Ev.ids[i] = Ev.ids[j] THEN Flag("CompletionOnce") /\ Frozen
+     ELSE IF \E i \in 1..Len(Ev.ids) : Ev.ids[i] \notin DOMAIN sent THEN Flag("CompletionUnknownGroup") /\ Frozen
+     ELSE UNCHANGED vars
+  /\ UNCHANGED aux
+
 \* WfCompletionEvent handled (CU event hook).  The handler runs again for the last wavefront while the
 \* completion message does not fit in the port: only the first handling ends the wavefront.
 TSampledEnd ==
@@ -230,7 +241,7 @@ TReset == Is("Reset") /\ Fresh
 \* front-end facts (scenarios with "fe"): read by CUFrontTrace.tla, nothing for this specification
 TFrontEnd == l <= N /\ Ev.e \in {"Fetch", "FetchRsp", "Retire", "RefPC"} /\ l' = l + 1 /\ UNCHANGED vars /\ UNCHANGED aux
 
-Events == (TFrontEnd \/ TMapWG \/ TRef \/ TIssue \/ TInstEnd \/ TMemReq \/ TMemRsp \/ TWfEnd \/ TWGDone
+Events == (TFrontEnd \/ TWGMsg \/ TMapWG \/ TRef \/ TIssue \/ TInstEnd \/ TMemReq \/ TMemRsp \/ TWfEnd \/ TWGDone
            \/ TAceTake \/ TSampledEnd \/ TQuiesce \/ TFinal \/ TReset) /\ UNCHANGED rejects
 
 \* Tolerant mode (one TLC run reports every sub-trace the specification refuses): a sub-trace in which a
